@@ -73,6 +73,9 @@ unsafe impl<M: AlignMarker> RcObject for Node<M> {
         let node_addr = self as *const Self as usize;
         let block = node_addr - crate::interp::circ_inner::data_offset();
         crate::shadow::hook_pop_edges(self.id, cells, extra, block, circ::verif::state_addr::<Self>(block));
+        // user code may take any time: other threads get a turn while the library is in the
+        // middle of destructing this object
+        crate::sched::inner_yield();
         match POP_POLICY.load(Relaxed) {
             0 => {
                 out.push(self.next[0].take());
@@ -94,6 +97,7 @@ impl<M: AlignMarker> Drop for Node<M> {
             crate::shadow::shadow().note_dtor_stack(crate::sched::my_tid(), &probe as *const u8 as usize);
         }
         self.canary.store(CANARY_DEAD, Relaxed);
+        crate::sched::inner_yield();
         let api = DTOR_API.load(Relaxed);
         if api != 0 && crate::shadow::installed() && crate::sched::my_tid() != crate::sched::NONE {
             // legal re-entry from a destructor that runs inside collection
